@@ -75,6 +75,21 @@ def random_chain(rnd, n=None):
 def build(rnd, kind='six_r', base6=None, limits=None):
     """returns (arm, spec) — raises whatever the constructor raises"""
     tm, fsr, Arm = libs()
+    if kind.startswith('urdf:'):
+        # a bundled URDF model: the loader builds it at the identity base (its screws and tool home are then base-local: the ground
+        # truth of the product-of-exponentials formula); a non-identity base is reached by move(); the limits are the file's
+        from basic_robotics.kinematics import loadArmFromURDF
+        base6 = np.zeros(6) if base6 is None else np.asarray(base6, dtype=float)
+        with contextlib.redirect_stdout(io.StringIO()):
+            arm = loadArmFromURDF(urdf_path(kind[5:]))
+            S = np.asarray(arm.screw_list, dtype=float).copy()
+            M = np.asarray(arm._end_effector_home.gTM(), dtype=float).copy()
+            n = S.shape[1]
+            spec = Spec(base6, S, M, np.zeros((3, n)))
+            spec.mins, spec.maxs = np.asarray(arm.joint_mins, dtype=float).reshape(-1).copy(), np.asarray(arm.joint_maxs, dtype=float).reshape(-1).copy()
+            if np.any(base6 != 0):
+                arm.move(tm(list(base6)))
+        return arm, spec
     if kind == 'six_r':
         S, M, homes, axes = six_r()
     else:
